@@ -5,7 +5,7 @@ from harness.ninjaref import (DecodeError, parse_manifest, evaluate, sh_split, b
 PROPERTY = 'C03'
 LEVEL = 'other'
 INSTRUMENT = dict(prefixes=('mesonbuild.',), exact=('mesonbuild', 'shlex', 'argparse'))
-FILES = ['mesonbuild/backend/ninjabackend.py', 'mesonbuild/backend/backends.py', 'mesonbuild/utils/universal.py']
+FILES = ['mesonbuild/backend/ninjabackend.py', 'mesonbuild/backend/backends.py', 'mesonbuild/utils/universal.py', 'mesonbuild/mtest.py']
 ENCODED = ['ninjabackend.ninja_quote', 'quote_func -> mesonlib.quote_arg -> shlex.quote (stdlib, instrumented)', 'gcc_rsp_quote', 'cmd_quote',
            'NinjaCommandArg', 'NinjaRule.__init__/_quoter/write/_length_estimate/should_use_rspfile',
            'NinjaBuildElement.add_item/write/_should_use_rspfile/count_rule_references/check_outputs', 'NinjaBuild.add_rule/add_build/write',
@@ -503,6 +503,57 @@ def ob_link_arg_sources():
     return h
 
 
+def ob_test_argv():
+    """test(): the argv `meson test` executes - the real SingleTestRunner.__init__ / run / _run_cmd / _run_subprocess up to asyncio.create_subprocess_exec, which is
+    a recorder: wrapper (none, --wrapper with a symbolic argument, --gdb) + the program + the test's args + --test-args, each the SAME string, in that order;
+    no shell is involved"""
+    def h():
+        import asyncio, argparse, types
+        from mesonbuild import mtest
+        from mesonbuild.backend.backends import TestSerialisation, TestProtocol
+        from mesonbuild.utils.core import EnvironmentVariables
+        WA2 = "a $'\\"
+        args = [sym_str(1 + choose(2, 'len%d' % i), 'arg%d' % i, alphabet=WA2) for i in range(1 + choose(2, 'nargs'))]
+        targs = [sym_str(1, 'test_arg', alphabet=WA2)] if choose(2, '--test-args given') else []
+        wk = choose(3, 'wrapper')
+        wrapper = [None, ['wrap', sym_str(1, 'wrapper_arg', alphabet=WA2)], None][wk]
+        proto = [TestProtocol.EXITCODE, TestProtocol.TAP][choose(2, 'protocol')]
+        t = TestSerialisation(name='t', project_name='p', suite=['p'], fname=['/bld/prog'], is_cross_built=False, exe_wrapper=None, needs_exe_wrapper=False,
+                              is_parallel=True, cmd_args=list(args), env=EnvironmentVariables(), expected_fail=False, expected_exitcode=None, timeout=30, workdir=None,
+                              extra_paths=[], protocol=proto, priority=0, cmd_is_built=True, cmd_is_exe=True, depends=[], version='1.0', verbose=False, exe_fname='/bld/prog')
+        opts = argparse.Namespace(timeout_multiplier=1, interactive=False, num_processes=2, benchmark=False, wrapper=wrapper, gdb=wk == 2, gdb_path='gdb', no_rebuild=False,
+                                  verbose=False, quiet=False, test_args=list(targs), split=False, repeat=1)
+        saved_isfile = mtest.os.path.isfile
+        runner = mtest.SingleTestRunner(t, {'MALLOC_PERTURB_': '0'}, 'p:t', opts)
+        rec = []
+
+        class Stop(Exception): pass
+
+        async def fake_exec(*a, **kw):
+            rec.append((list(a), kw)); raise Stop()
+        saved = asyncio.create_subprocess_exec
+        asyncio.create_subprocess_exec = fake_exec
+        loop = asyncio.new_event_loop()
+        try:
+            try:
+                loop.run_until_complete(runner.run(types.SimpleNamespace(log_start_test=lambda r: None)))
+            except Stop:
+                pass
+        finally:
+            asyncio.create_subprocess_exec = saved
+            loop.close()
+        check(len(rec) == 1, 'one process is started for the test')
+        if len(rec) != 1: return
+        got, kw = rec[0]
+        exp = ([] if wk == 0 else (list(wrapper) if wk == 1 else ['gdb', '--quiet', '--args'])) + ['/bld/prog'] + list(args) + list(targs)
+        check(len(got) == len(exp), 'argv: wrapper + program + test arguments + --test-args, nothing added or lost')
+        if len(got) == len(exp):
+            for g, e in zip(got, exp): check(eq(g, e), 'argv: every argument is the same string, in the same position')
+        check('shell' not in kw or not kw['shell'], 'no shell')
+        cover('started')
+    return h
+
+
 def obligations(tier):
     out = []
     q = tier == 'quick'
@@ -538,4 +589,5 @@ def obligations(tier):
     for lens in ([1], [2], [1, 1]) if q else ([1], [2], [3], [1, 1], [2, 2]):
         out.append(Obligation('join-split%s' % lens, ob_joinsplit(lens), dict(arg_lengths=lens), labels=('done',), max_paths=3000000))
     out.append(Obligation('link-arg-sources', ob_link_arg_sources(), dict(real='Compiler.get_build_link_args, Build.get_project_link_args / get_global_link_args', lists='0-2 symbolic 1-char strings each', targets='2-3 in sequence'), labels=('done',)))
+    out.append(Obligation('test-argv', ob_test_argv(), dict(real='mtest.SingleTestRunner.__init__/run/_run_cmd/_run_subprocess, TestHarness.get_wrapper; asyncio.create_subprocess_exec recorded', args='1-2 of 1-2 chars over {a, space, $, quote, backslash}', test_args='0-1', wrapper='none | --wrapper with a symbolic argument | --gdb', protocol='exitcode | tap'), labels=('started',), max_paths=3000000))
     return out
